@@ -11,7 +11,7 @@ namespace Crng.Tie.CodeCompose
 open Crng.Code Crng.Gen.Code Crng.CodeSpec Crng.Tie.CodeRoute
 
 /-- a destination as a route sees it: its filter is the translated `Matcher.Match` -/
-def destOf (id : Nat) (m : Matcher) : DestI := ⟨id, m.Match⟩
+def destOf (id : Nat) (m : Matcher) : DestI := { id, Match := m.Match }
 /-- a carbon route as the table sees it -/
 def sendAllRoute (id : Nat) (key : Bytes) (m : Matcher) (ds : List DestI) : RouteI :=
   { id, Key := key, Match := m.Match, Dispatch := (SendAllMatch.mk ⟨ds⟩).Dispatch, Shutdown := ([], none) }
